@@ -20,8 +20,11 @@
 (*         bytes the client sent (m is computed here, by Lcp), proto =     *)
 (*         protocol observed on the wire, saw / sent = what the service    *)
 (*         handler saw behind the auto server / behind the single-protocol *)
-(*         hyper server fed the same bytes unfragmented, ans / ref = the   *)
-(*         client-visible answer of the two. g=1: a group of n vectors     *)
+(*         hyper server fed the same bytes unfragmented, ans = the client- *)
+(*         visible answer, ref = the answers the single-protocol server    *)
+(*         gives to the same bytes (unfragmented and under every chunking  *)
+(*         with <= 2 cuts and one byte at a time: hyper's own answer to    *)
+(*         some malformed streams depends on the fragmentation). g=1: a group of n vectors     *)
 (*         with identical observation (the formulas do not read the        *)
 (*         chunking); g=0: one vector, with its IO script and the reads    *)
 (*         the real code issued.                                           *)
@@ -43,21 +46,21 @@ Load(r) ==
     IF r.k = "conn"
     THEN /\ m' = Lcp(r.head) /\ len' = r.len /\ eof' = r.eof
          /\ version' = r.proto /\ saw' = r.saw /\ sent' = r.sent
-         /\ answer' = r.ans /\ ref' = r.ref
+         /\ answer' = r.ans /\ ref' = {r.ref[i] : i \in 1..Len(r.ref)}
          /\ pc' = "done"
     ELSE IF r.k = "rewind"
     THEN \* no decision is observed in these runs: m, version are set so that DecisionOK is trivially true;
          \* the answer is the bytes themselves
          /\ m' = 0 /\ version' = "h1" /\ len' = r.len /\ eof' = TRUE
          /\ saw' = r.saw /\ sent' = r.sent
-         /\ answer' = Respond("h1", r.saw) /\ ref' = Respond("h1", r.sent)
+         /\ answer' = Respond("h1", r.saw) /\ ref' = {Respond("h1", r.sent)}
          /\ pc' = "done"
     ELSE /\ pc' = "sniff"                       \* formulas are conditional on pc: nothing is claimed
          /\ UNCHANGED <<m, len, eof, version, saw, sent, answer, ref>>
 
 ObsInit ==
     /\ l = 0
-    /\ m = 0 /\ len = 0 /\ eof = TRUE /\ ones = FALSE /\ sent = <<>> /\ ref = <<>>
+    /\ m = 0 /\ len = 0 /\ eof = TRUE /\ ones = FALSE /\ sent = <<>> /\ ref = {}
     /\ arrived = 0 /\ chunkLeft = 0 /\ cuts = 0 /\ pendOk = TRUE
     /\ pc = "sniff" /\ susp = TRUE /\ cancelled = FALSE /\ filled = 0 /\ version = "h2"
     /\ prefix = 0 /\ rpos = 0 /\ saw = <<>> /\ answer = <<>> /\ hist = <<>>
